@@ -103,3 +103,7 @@ Theorem C01_refuted_tx :
   exists v, typed S_Transaction v = true /\ ~ roundtrips S_Transaction v.
 Proof. exact refuted_tx_with_empty_predicate. Qed.
 Print Assumptions C01_refuted_tx.
+Theorem C01_refuted_unknown_policy_bits :
+  exists v, typed S_Policies v = false /\ size S_Policies v = 16 /\ lenN (enc S_Policies v) = 8.
+Proof. exact refuted_unknown_policy_bits. Qed.
+Print Assumptions C01_refuted_unknown_policy_bits.
